@@ -328,6 +328,9 @@ class CellConversion:
             # this cell is empty, propagate the None
             return None
         new_args = [node for node in new_args if node is not None]
+        if not new_args:
+            # all the operands of this union are empty, so the union is empty
+            return None
         new_node = [p_id, operator]
         for node in new_args:
             if isIntersection(node) and operator == '*':
